@@ -5,6 +5,7 @@ Only property theorems and non-vacuity examples; lemmas are in Rpki/Proofs/Uri*.
 import Rpki.Proofs.UriRsync7
 import Rpki.Proofs.UriHttps2
 import Rpki.Proofs.UriHttps
+import Rpki.Proofs.UriCanon
 namespace Rpki.C12
 open Rpki.Uri Rpki.Consts
 
@@ -160,5 +161,31 @@ example : ((Rsync.mk ex1 10 12).join [120]).toOption = some ⟨ex1 ++ [47, 120],
 example : (Https.fromBytes ex2).toOption = some ⟨ex2, 19⟩ := by decide
 example : ((Https.mk ex2 19).join [102]).toOption = some ⟨ex2 ++ [47, 102], 19⟩ := by decide
 example : (Rsync.mk (ex1 ++ [47, 120]) 10 12).relativeTo ⟨ex1, 10, 12⟩ = some [120] := by decide
+
+/-! ## the canonical module (`Rsync::canonical_module`) -/
+
+/-- The canonical module of an accepted URI is itself an accepted URI with an empty path in the same
+module; it is the module text with the authority in lower case (scheme as written, module name
+exactly as written). -/
+theorem canonical_module_is_the_module (b : Bytes) (u : Rsync) (h : Rsync.fromBytes b = .ok u) :
+    (∃ v, Rsync.fromBytes u.canonicalModule = .ok v ∧ v.path = [] ∧ v.eqModule u = true) ∧
+    u.canonicalModule.drop (8 + u.authority.length) = slash :: (u.moduleName ++ [slash]) ∧
+    slice u.canonicalModule 8 (8 + u.authority.length) = u.authority.map toLower :=
+  ⟨Rsync.canonicalModule_accepted b u h, (Rsync.canonicalModule_shape b u h).2.2.1, (Rsync.canonicalModule_shape b u h).2.2.2.1⟩
+
+/-- URIs with the same canonical module are in the same module. The converse holds for URIs written
+with the lower-case scheme and is false otherwise (`RSYNC://h/m/` and `rsync://h/m/` are in the same
+module but keep their schemes as written). -/
+theorem canonical_module_identifies_modules (b b' : Bytes) (u o : Rsync) (h : Rsync.fromBytes b = .ok u)
+    (h' : Rsync.fromBytes b' = .ok o) :
+    (u.canonicalModule = o.canonicalModule → u.eqModule o = true) ∧
+    (u.bytes.take 8 = rsyncScheme → o.bytes.take 8 = rsyncScheme → u.eqModule o = true →
+      u.canonicalModule = o.canonicalModule) :=
+  ⟨Rsync.canonicalModule_sound b b' u o h h', fun hu ho he => Rsync.canonicalModule_complete_partial b b' u o h h' hu ho he⟩
+
+theorem canonical_module_keeps_scheme_case :
+    ∃ u o, Rsync.fromBytes exUpperScheme = .ok u ∧ Rsync.fromBytes exLowerScheme = .ok o ∧
+      u.eqModule o = true ∧ u.canonicalModule ≠ o.canonicalModule := Rsync.canonicalModule_scheme_counterexample
+
 
 end Rpki.C12
